@@ -143,9 +143,9 @@ func (m *Model) attribute(t *Table, tag string, r *Row, prev *Row, stmtKind stri
 	}
 }
 
+// idSeq: the generated keys of one committed transaction, per table, in the order its rows consume them.
 type idSeq struct {
-	next map[string]int64
-	have map[string]bool
+	queue map[string][]int64
 }
 
 func (m *Model) Apply(s *Stmt, ids *idSeq) (verdict, error) {
@@ -250,11 +250,11 @@ func (m *Model) applyInsert(t *Table, s *Stmt, ids *idSeq) (verdict, error) {
 					v.must("pk-null")
 					continue
 				}
-				if ids == nil || !ids.have[t.Name] {
-					return v, fmt.Errorf("no generated key reported for table %s", t.Name)
+				if ids == nil || len(ids.queue[t.Name]) == 0 {
+					return v, fmt.Errorf("no generated key known for table %s", t.Name)
 				}
-				vals[t.PK[0]] = vInt(ids.next[t.Name])
-				ids.next[t.Name]++
+				vals[t.PK[0]] = vInt(ids.queue[t.Name][0])
+				ids.queue[t.Name] = ids.queue[t.Name][1:]
 			} else {
 				explicitAuto = true
 			}
@@ -325,8 +325,14 @@ func (m *Model) applyInsert(t *Table, s *Stmt, ids *idSeq) (verdict, error) {
 			judge(probs, true)
 			write(tag, vals, nil, exTag, true)
 		case s.Kind == "insert-nothing":
+			if t.Auto && !explicitAuto {
+				v.must("auto-collision") // a generated key is never supposed to meet a live row
+			}
 			judge(probs, false)
 		case s.Kind == "insert-update":
+			if t.Auto && !explicitAuto {
+				v.must("auto-collision")
+			}
 			judge(probs, false)
 			nv := existing.clone().Vals
 			if err := applySets(t, nv, s.Sets, &v); err != nil {
